@@ -1,5 +1,7 @@
 import ImathVerif.Lemmas.C07Lemmas
 import ImathVerif.Gen.C07GJ
+import ImathVerif.Lemmas.C07GJLink
+import ImathVerif.Props.C06
 /-!
 # C07 — Matrix33::gjInverse () / gjInverse (false) / gjInverse (true), gjInvert likewise
 
@@ -7,6 +9,11 @@ The three Gauss-Jordan bodies are separate textual copies of ~90 lines (1,312 pa
 The pair theorems compare the regenerated trees leaf by leaf (`unexc` / `errIs` pushed through the `if`s), so an edit
 to ONE copy (a pivot test, a swapped index, a dropped `singExc` test) breaks them.  The 4×4 members have far too many
 paths; they are decided by correspondence (harness `c07_pairs`), and enter `Props/C07.lean` as parameters.
+
+Second half (audit W6 / C06-S4): `Lemmas/C07GJLink.lean` proves that the extracted checked form IS the Gauss-Jordan hand model of
+C06 at `n = 3` (leaf by leaf over the 1,312 paths).  With C06's correctness theorems this gives the failure equivalence in BOTH
+directions (`M33_gjInverse_failure`), the exact characterisation "throws ⇔ det = 0" and "returns ⇒ two-sided inverse" for the
+EXTRACTED trees.  `==` of the model is any lawful `BEq` (`[BEq α] [LawfulBEq α]`, as in C06); every ordered field has one.
 -/
 set_option linter.unusedSectionVars false
 set_option linter.unusedVariables false
@@ -50,6 +57,102 @@ theorem M33_gjInvert_eq (a : M33 α) :
   · simp only [Gen.C07.M33.gjInvert0, Gen.C07.M33.gjInverse0]
   · simp only [Gen.C07.M33.gjInvertF, Gen.C07.M33.gjInverseF]
   · simp only [Gen.C07.M33.gjInvertT, Gen.C07.M33.gjInverseT]
+
+/-! ## the extracted trees are the C06 model: determinant characterisation and the converse of the failure equivalence -/
+
+section model
+variable [BEq α] [LawfulBEq α]
+open Matrix
+
+/-- the extracted `gjInverse (true)` is the hand model `M33.gjInverseExc` (Model/GaussJordan.lean at `n = 3`) -/
+theorem M33_gjInverseT_eq_model (a : M33 α) : Gen.C07.M33.gjInverseT a = M33.gjInverseExc a :=
+  C07GJLink.M33_gjInverseT_eq_model a
+
+/-- ... and so is the unchecked copy: `gjInverse ()` is `M33.gjInverse` -/
+theorem M33_gjInverse0_eq_model (a : M33 α) : Gen.C07.M33.gjInverse0 a = M33.gjInverse a := by
+  rw [← M33_gjInverseT_unexc, M33_gjInverseT_eq_model]
+  unfold M33.gjInverseExc M33.gjInverse M33.id
+  cases GJ.gjCore a.toGJ <;> rfl
+
+/-- `gjInverse (true)` throws (`std::invalid_argument`) exactly for a singular matrix (Mathlib's determinant) -/
+theorem M33_gjInverseT_error_iff (a : M33 α) (k : Exc) :
+    Gen.C07.M33.gjInverseT a = .error k ↔ (k = Exc.invalidArgument ∧ a.toMat.det = 0) := by
+  rw [M33_gjInverseT_eq_model]
+  by_cases hd : a.toMat.det = 0
+  · rw [(C06.M33_gjInverseExc_spec a).1 hd]
+    constructor
+    · intro h; cases h; exact ⟨rfl, hd⟩
+    · rintro ⟨rfl, _⟩; rfl
+  · rw [(C06.M33_gjInverseExc_spec a).2 hd]
+    constructor
+    · intro h; cases h
+    · rintro ⟨_, h0⟩; exact absurd h0 hd
+
+/-- when it returns, the result is a two-sided inverse -/
+theorem M33_gjInverseT_ok_mul (a y : M33 α) (h : Gen.C07.M33.gjInverseT a = .ok y) :
+    y.toMat * a.toMat = 1 ∧ a.toMat * y.toMat = 1 := by
+  rw [M33_gjInverseT_eq_model] at h
+  by_cases hd : a.toMat.det = 0
+  · rw [(C06.M33_gjInverseExc_spec a).1 hd] at h; cases h
+  · rw [(C06.M33_gjInverseExc_spec a).2 hd] at h
+    cases h
+    exact C06.M33_gjInverse_spec a hd
+
+theorem M33_id_toMat : (M33.id α).toMat = 1 := by
+  ext i j; fin_cases i <;> fin_cases j <;> simp [M33.id, M33.toMat]
+
+theorem M33_eq_id_of_toMat (a : M33 α) (h : a.toMat = 1) : a = M33.id α := by
+  have e := fun i j => congrFun (congrFun h i) j
+  have e00 := e 0 0; have e01 := e 0 1; have e02 := e 0 2
+  have e10 := e 1 0; have e11 := e 1 1; have e12 := e 1 2
+  have e20 := e 2 0; have e21 := e 2 1; have e22 := e 2 2
+  simp [M33.toMat] at e00 e01 e02 e10 e11 e12 e20 e21 e22
+  have ea : a = ⟨a.x00, a.x01, a.x02, a.x10, a.x11, a.x12, a.x20, a.x21, a.x22⟩ := rfl
+  rw [ea]
+  simp only [M33.id, M33.mk.injEq]
+  exact ⟨e00, e01, e02, e10, e11, e12, e20, e21, e22⟩
+
+/-- FULL STRENGTH, both directions (audit W6): `Matrix33::gjInverse (true)` throws exactly when `gjInverse ()` reports failure,
+i.e. returns the identity for a matrix that is not the identity -/
+theorem M33_gjInverse_failure (a : M33 α) :
+    Gen.C07.M33.gjInverseT a = .error Exc.invalidArgument ↔ (Gen.C07.M33.gjInverse0 a = M33.id α ∧ a ≠ M33.id α) := by
+  constructor
+  · intro h
+    refine ⟨(M33_gjInverseT_error a _ h).2, ?_⟩
+    rintro rfl
+    have hd := ((M33_gjInverseT_error_iff _ _).mp h).2
+    rw [M33_id_toMat, det_one] at hd
+    exact one_ne_zero hd
+  · rintro ⟨h1, hne⟩
+    cases hT : Gen.C07.M33.gjInverseT a with
+    | error k => rw [(M33_gjInverseT_error a k hT).1]
+    | ok y =>
+      exfalso
+      have hy : y = M33.id α := by rw [← h1]; exact (M33_gjInverseT_ok a y hT).symm
+      have hm := (M33_gjInverseT_ok_mul a y hT).1
+      rw [hy, M33_id_toMat, one_mul] at hm
+      exact hne (M33_eq_id_of_toMat a hm)
+
+/-- the same for the other copies: `gjInverse (false)` and the in-place `gjInvert` forms -/
+theorem M33_gjInverse_failure_copies (a : M33 α) :
+    (Gen.C07.M33.gjInverseT a = .error Exc.invalidArgument ↔ (Gen.C07.M33.gjInverseF a = M33.id α ∧ a ≠ M33.id α)) ∧
+    (Gen.C07.M33.gjInvertT a = .error Exc.invalidArgument ↔ (Gen.C07.M33.gjInvert0 a = M33.id α ∧ a ≠ M33.id α)) ∧
+    (Gen.C07.M33.gjInvertT a = .error Exc.invalidArgument ↔ (Gen.C07.M33.gjInvertF a = M33.id α ∧ a ≠ M33.id α)) := by
+  obtain ⟨h0, hF, hT⟩ := M33_gjInvert_eq a
+  rw [M33_gjInverseF_eq, h0, hF, hT, M33_gjInverseF_eq]
+  exact ⟨M33_gjInverse_failure a, M33_gjInverse_failure a, M33_gjInverse_failure a⟩
+
+/-- well-conditioned input never throws: any non-singular matrix -/
+theorem M33_gjInverseT_never (a : M33 α) (h : a.toMat.det ≠ 0) :
+    Gen.C07.M33.gjInverseT a = .ok (Gen.C07.M33.gjInverse0 a) := by
+  cases hT : Gen.C07.M33.gjInverseT a with
+  | error k => exact absurd ((M33_gjInverseT_error_iff a k).mp hT).2 h
+  | ok y => rw [M33_gjInverseT_ok a y hT]
+
+example : (⟨2, 1, 0, 1, 1, 0, 0, 0, 3⟩ : M33 ℚ).toMat.det ≠ 0 := by
+  rw [det_fin_three]; simp [M33.toMat]; norm_num
+
+end model
 
 /-- both outcomes are reachable: a zero first column makes the first pivot search fail; the identity is inverted -/
 example : Gen.C07.M33.gjInverseT (⟨0, 1, 2, 0, 3, 4, 0, 5, 6⟩ : M33 ℚ) = .error Exc.invalidArgument := by
